@@ -1,160 +1,268 @@
-"""Translator for X01: regenerates lean/PyramidModel/Gen/X01.lean from src/pyramid/router.py.
+"""Translator for X01: regenerates lean/PyramidModel/Gen/X01.lean from the tree under test.
 
-What is read (python `ast`, nothing is executed): the body of `Router.handle_request`, statement by statement, as the
-ORDER OF ITS STEPS — the event notifications, the route match, which request attributes are set and from what, which
-request interface is installed, how the root factory is chosen and when it is called, the traverser call, the
-`attrs.update`, how `context_iface` is computed, the arguments of `_call_view`, and the `HTTPNotFound` on `None`.
-Local aliases (`adapters = registry.adapters`, …) and the two debug-logging blocks are skipped; local variable names are
-abstracted where they do not matter (the name of the traverser's result).  Any other statement is emitted as
-"unknown: …", which makes `Props/X01.lean: steps_as_modelled` (a `decide`d equation) fail rather than guess.
+Robustness round: the order of the steps of `Router.handle_request` — and WHAT OF THE REQUEST IS ALREADY SET AT EACH STEP —
+is no longer read off one source shape but OBSERVED by running the router of the tree under test (`src_root` must be
+where `pyramid` is imported from, otherwise nothing is recognised) on one scratch application and six request shapes:
+
+  traversal        GET /a/v      no route matches -> default root factory, view `v` on the resource `a`
+  route-factory    GET /r/7      route `/r/{id}` with its own factory, route-bound view
+  route-traverse   GET /t/a/v    route `/t/*traverse` (use_global_views) -> traversal along the match dictionary, global view
+  factory-raises   GET /x/1      the route's factory raises ValueError -> route-bound exception view
+  not-found        GET /zz       nothing registered -> HTTPNotFound -> notfound view
+  undecodable      PATH_INFO /\\xff -> URLDecodeError -> global exception view
+
+Logging subscribers (NewRequest, BeforeTraversal, ContextFound), logging root / route factories and a logging `ITraverser`
+adapter record, at each event, `matched_route`, `matchdict`, `request_iface.__sro__`, `root`, `context`, `view_name` as the
+request carries them AT THAT MOMENT; the outcome is the tag of the answering view (or the class of the exception leaving the
+router) and the class of the exception a tween under the excview tween saw passing.  The table is emitted as Lean data and
+`Props/X01.lean: probed_router_matches_model` `decide`s it against the composed model run on the same application.
+Fail closed: an exception while probing, a foreign `pyramid`, or an unexpected value yields `ownTree := false` / an empty
+table, and the obligation fails.  Helper extraction, renamed locals, reordered independent statements do not change the table.
+
+STILL AST (cross-check only, tolerant): the order of the key calls in `handle_request` — followed into `self._helper(...)`
+methods two levels deep — `notify(NewRequest)`, `routes_mapper(`, `notify(BeforeTraversal)`, `root_factory(`, `traverser(`,
+`notify(ContextFound)`, `_call_view(`, `raise HTTPNotFound`.  If the walk does not find all of them it emits `[]`
+("not recognised"), which the obligation `ast_order_cross_check` accepts; a recognised but DIFFERENT order fails it.
 """
-import ast, os
+import ast, os, sys
 
 summary = {}
 
-
-def _u(node):
-    return ast.unparse(node)
+EXC_IDS = {'HTTPForbidden': 44, 'HTTPNotFound': 45, 'KeyError': 46, 'PredicateMismatch': 48, 'URLDecodeError': 49, 'ValueError': 52}
 
 
-def _is_debug_block(stmts):
-    """only `msg = …` assignments and `logger and logger.debug(msg)`"""
-    for s in stmts:
-        if isinstance(s, ast.Assign) and len(s.targets) == 1 and isinstance(s.targets[0], ast.Name) and s.targets[0].id == 'msg':
-            continue
-        if isinstance(s, ast.Expr) and 'logger' in _u(s) and 'debug' in _u(s):
-            continue
-        return False
-    return True
+def _probe(src_root):
+    import pyramid
+    own = os.path.realpath(os.path.dirname(pyramid.__file__)).startswith(os.path.realpath(src_root))
+    if not own:
+        return False, []
+    from zope.interface import Interface
+    from pyramid.config import Configurator
+    from pyramid.events import NewRequest, BeforeTraversal, ContextFound
+    from pyramid.exceptions import URLDecodeError
+    from pyramid.interfaces import IRequest, IRouteRequest
+    from pyramid.request import Request
+    from pyramid.response import Response
+    from pyramid.traversal import ResourceTreeTraverser
+    from pyramid.tweens import EXCVIEW
+
+    log = []
+    state = {}
+
+    class Root(dict):
+        pass
+
+    class A(dict):
+        pass
+
+    def tree(ri, kid):
+        r = Root()
+        r._pos = (ri, [])
+        a = A()
+        a._pos = (ri, [kid])
+        dict.__setitem__(r, kid, a)
+        return r
+    roots = [tree(0, 'a'), tree(1, 'b')]
+    names = ['rt0', 'rt1', 'rt2']
+
+    def iface_id(config, i):
+        if i is IRequest:
+            return 0
+        if i is Interface:
+            return 50
+        for k, n in enumerate(names):
+            ri = config.registry.queryUtility(IRouteRequest, name=n)
+            if i is ri:
+                return 1 + k
+            if i is getattr(ri, 'combined', None):
+                return 20 + k
+        return 60
+
+    def snap(event, request):
+        d = request.__dict__
+        route = d.get('matched_route')
+        md = d.get('matchdict', getattr(request, 'matchdict', None))
+        riface = d.get('request_iface')
+        root, ctx = d.get('root'), d.get('context')
+        log.append((event, None if route is None else names.index(route.name),
+                    [] if md is None else [(k, v if isinstance(v, str) else '(' + ','.join(v) + ')') for k, v in md.items()],
+                    [] if riface is None else [iface_id(state['config'], i) for i in riface.__sro__],
+                    None if root is None else root._pos[0],
+                    None if ctx is None else list(ctx._pos[1]),
+                    d.get('view_name')))
+
+    def factory(i, hook, raises=None):
+        def f(request):
+            snap(hook, request)
+            if raises is not None:
+                raise raises()
+            return roots[i]
+        return f
+
+    class LoggingTraverser:
+        def __init__(self, root):
+            self.root = root
+
+        def __call__(self, request):
+            snap('traverser', request)
+            return ResourceTreeTraverser(self.root)(request)
+
+    def under_factory(handler, registry):
+        def under(request):
+            try:
+                return handler(request)
+            except Exception as e:
+                state['caught'] = e
+                raise
+        return under
+    mod = sys.modules[__name__]
+    mod.under_factory = under_factory
+
+    def mk(tag):
+        def view(context, request):
+            r = Response('V%d' % tag)
+            r.headers['X-Tag'] = str(tag)
+            return r
+        view.__name__ = 'v%d' % tag
+        return view
+
+    config = Configurator(root_factory=factory(0, 'rootfactory'), autocommit=True)
+    state['config'] = config
+    config.add_tween(__name__ + '.under_factory', under=EXCVIEW)
+    config.add_traverser(LoggingTraverser)
+    for ev, nm in ((NewRequest, 'NewRequest'), (BeforeTraversal, 'BeforeTraversal'), (ContextFound, 'ContextFound')):
+        config.add_subscriber((lambda event, nm=nm: snap(nm, event.request)), ev)
+    config.add_route('rt0', '/r/{id}', factory=factory(1, 'routefactory'))
+    config.add_route('rt1', '/t/*traverse', use_global_views=True)
+    config.add_route('rt2', '/x/{id}', factory=factory(1, 'routefactory', ValueError))
+    config.add_view(mk(1), context=A, name='v')
+    config.add_view(mk(2), route_name='rt0')
+    config.add_exception_view(mk(3), context=ValueError, route_name='rt2')
+    config.add_notfound_view(mk(4))
+    config.add_exception_view(mk(5), context=URLDecodeError)
+    app = config.make_wsgi_app()
+
+    table = []
+    for name, raw in (('traversal', b'/a/v'), ('route-factory', b'/r/7'), ('route-traverse', b'/t/a/v'),
+                      ('factory-raises', b'/x/1'), ('not-found', b'/zz'), ('undecodable', b'/\xff')):
+        del log[:]
+        state.pop('caught', None)
+        env = Request.blank('/').environ
+        env['PATH_INFO'] = raw.decode('latin-1')
+        sh = {}
+
+        def start_response(status, headers, exc_info=None):
+            sh['status'], sh['headers'] = status, headers
+        try:
+            b''.join(app(env, start_response))
+            tag = dict(sh['headers']).get('X-Tag')
+            final = ('view', int(tag)) if tag is not None else ('status', int(sh['status'][:3]))
+        except Exception as e:
+            final = ('raise', EXC_IDS.get(type(e).__name__, 0))
+        caught = state.get('caught')
+        table.append((name, list(log), final, None if caught is None else EXC_IDS.get(type(caught).__name__, 0)))
+    return True, table
 
 
-class _Walk:
-    def __init__(self):
-        self.steps = []
-        self.tdict = None
-        self.saw_query_adapter = False
+# ------------------------------------------------------------------------------------------------------------------
+# AST cross-check (tolerant)
 
-    def emit(self, s):
-        self.steps.append(s)
+def _ast_events(src_root):
+    path = os.path.join(src_root, 'pyramid', 'router.py')
+    tree = ast.parse(open(path).read())
+    cls = None
+    for node in ast.walk(tree):
+        if isinstance(node, ast.ClassDef) and node.name == 'Router':
+            cls = node
+    if cls is None:
+        return []
+    methods = {x.name: x for x in cls.body if isinstance(x, ast.FunctionDef)}
+    if 'handle_request' not in methods:
+        return []
+    out = []
 
-    def block(self, stmts):
-        for s in stmts:
-            self.stmt(s)
-
-    def stmt(self, s):
-        # notifications
-        if isinstance(s, ast.Expr) and isinstance(s.value, ast.BoolOp) and isinstance(s.value.op, ast.And) and len(s.value.values) == 2:
-            a, b = s.value.values
-            if isinstance(a, ast.Name) and a.id == 'has_listeners' and isinstance(b, ast.Call) and _u(b.func) == 'notify' \
-                    and len(b.args) == 1 and isinstance(b.args[0], ast.Call) and _u(b.args[0].args[0] if b.args[0].args else b) == 'request':
-                return self.emit('notify ' + _u(b.args[0].func))
-        if isinstance(s, ast.Expr) and isinstance(s.value, ast.Call) and _u(s.value.func) == 'attrs.update' and len(s.value.args) == 1:
-            arg = _u(s.value.args[0])
-            return self.emit('attrs.update(tdict)' if arg == self.tdict else 'unknown: ' + _u(s))
-        if isinstance(s, ast.Return):
-            return self.emit('return ' + (_u(s.value) if s.value is not None else ''))
-        if isinstance(s, ast.If):
-            test = _u(s.test)
-            if test in ('debug_routematch', 'self.debug_notfound') and _is_debug_block(s.body):
-                # the else-branch of `if self.debug_notfound:` is `msg = request.path_info`
-                if _is_debug_block(s.orelse):
-                    return
-            if test == 'routes_mapper is not None' and not s.orelse:
-                self.emit('if routes_mapper')
-                self.block(s.body)
-                return self.emit('end')
-            if test == 'route is None' and _is_debug_block([x for x in s.body if not (isinstance(x, ast.If) and _u(x.test) == 'debug_routematch' and _is_debug_block(x.body))]) \
-                    and all((isinstance(x, ast.If) and _u(x.test) == 'debug_routematch') or _is_debug_block([x]) for x in s.body):
-                self.emit('if route')
-                self.block(s.orelse)
-                return self.emit('end')
-            if test == 'traverser is None' and not s.orelse and len(s.body) == 1 and _u(s.body[0]) == 'traverser = ResourceTreeTraverser(root)' \
-                    and self.saw_query_adapter:
-                return self.emit('traverser=queryAdapter(root, ITraverser) or ResourceTreeTraverser(root)')
-            if test == 'response is None' and not s.orelse and s.body and isinstance(s.body[-1], ast.Raise) \
-                    and _u(s.body[-1]) == 'raise HTTPNotFound(msg)' \
-                    and all((isinstance(x, ast.If) and _u(x.test) == 'self.debug_notfound') for x in s.body[:-1]):
-                for x in s.body[:-1]:
-                    self.stmt(x)
-                return self.emit('if response is None: raise HTTPNotFound')
-            return self.emit('unknown: ' + _u(s).split('\n')[0])
-        if isinstance(s, ast.Assign) and len(s.targets) == 1:
-            t, v = s.targets[0], s.value
-            tu, vu = _u(t), _u(v)
-            if isinstance(t, ast.Subscript) and _u(t.value) == 'attrs' and isinstance(t.slice, ast.Constant):
-                return self.emit('attrs[%s]=%s' % (t.slice.value, vu))
-            if tu == 'request.request_iface':
-                return self.emit('iface=' + vu)
-            if tu == 'root_factory':
-                return self.emit('factory=' + vu)
-            if tu == 'context_iface':
-                return self.emit('context_iface=' + vu)
-            if isinstance(t, ast.Tuple) and [_u(e) for e in t.elts] == ['match', 'route'] and isinstance(v, ast.Tuple):
-                return self.emit('match,route=' + ','.join(_u(e) for e in v.elts))
-            if isinstance(t, ast.Tuple) and isinstance(v, ast.Tuple) and self.tdict is not None and len(t.elts) == len(v.elts):
-                want = {'context': 'context', 'view_name': 'view_name', 'subpath': 'subpath', 'traversed': 'traversed',
-                        'vroot': 'virtual_root', 'vroot_path': 'virtual_root_path'}
-                ok = True
-                for a, b in zip(t.elts, v.elts):
-                    if not (isinstance(a, ast.Name) and a.id in want and _u(b) == "%s['%s']" % (self.tdict, want[a.id])):
-                        ok = False
-                return self.emit('unpack tdict' if ok else 'unknown: ' + _u(s).split('\n')[0])
-            if isinstance(t, ast.Name) and isinstance(v, ast.Call):
-                fu = _u(v.func)
-                args = ', '.join(_u(a) for a in v.args) + ''.join(', %s=%s' % (k.arg, _u(k.value)) for k in v.keywords)
-                if fu == 'routes_mapper' and args == 'request' and tu == 'info':
-                    return self.emit('info=routes_mapper(request)')
-                if fu == 'root_factory' and args == 'request' and tu == 'root':
-                    return self.emit('root=root_factory(request)')
-                if fu == 'traverser' and args == 'request':
-                    self.tdict = tu
-                    return self.emit('tdict=traverser(request)')
-                if fu == '_call_view' and tu == 'response':
-                    return self.emit('response=_call_view(%s)' % args)
-                if fu == 'adapters.queryAdapter' and tu == 'traverser' and args == 'root, ITraverser':
-                    self.saw_query_adapter = True
-                    return
-                return self.emit('unknown: ' + _u(s))
-            if isinstance(t, ast.Name) and isinstance(v, (ast.Attribute, ast.Subscript, ast.Constant, ast.Name)):
-                return            # a local alias / initialisation (`context = None`, `adapters = registry.adapters`, …)
-        return self.emit('unknown: ' + _u(s).split('\n')[0])
+    def visit(node, depth):
+        """source-order walk (statements in order; inside a statement, calls in evaluation order approximated by position)"""
+        calls = []
+        for n in ast.walk(node):
+            if isinstance(n, (ast.Call, ast.Raise)):
+                calls.append(n)
+        calls.sort(key=lambda n: (n.lineno, n.col_offset))
+        for n in calls:
+            if isinstance(n, ast.Raise):
+                if n.exc is not None and 'HTTPNotFound' in ast.unparse(n.exc):
+                    out.append('raise HTTPNotFound')
+                continue
+            f = ast.unparse(n.func)
+            if f.endswith('notify') and n.args and isinstance(n.args[0], ast.Call):
+                out.append('notify ' + ast.unparse(n.args[0].func))
+            elif f in ('routes_mapper', 'self.routes_mapper'):
+                out.append('routes_mapper')
+            elif f == 'root_factory':
+                out.append('root_factory')
+            elif f == 'traverser':
+                out.append('traverser')
+            elif f == '_call_view':
+                out.append('_call_view')
+            elif f.startswith('self._') and f[5:] in methods and depth < 2:
+                visit(methods[f[5:]], depth + 1)
+    for stmt in methods['handle_request'].body:
+        visit(stmt, 0)
+    want = {'notify NewRequest', 'routes_mapper', 'notify BeforeTraversal', 'root_factory', 'traverser', 'notify ContextFound',
+            '_call_view', 'raise HTTPNotFound'}
+    if not want.issubset(set(out)) or len([e for e in out if e in want]) != len(want):
+        return []
+    return [e for e in out if e in want]
 
 
-def _lean_str(s):
-    return '"' + s.replace('\\', '\\\\').replace('"', '\\"') + '"'
+# ------------------------------------------------------------------------------------------------------------------
+
+def _s(x):
+    return '"' + x.replace('\\', '\\\\').replace('"', '\\"') + '"'
+
+
+def _on(x):
+    return 'none' if x is None else '(some %d)' % x
+
+
+def _lean_step(st):
+    ev, route, md, iface, root, ctx, vn = st
+    return '⟨%s, %s, [%s], [%s], %s, %s, %s⟩' % (
+        _s(ev), _on(route), ', '.join('(%s, %s)' % (_s(k), _s(v)) for k, v in md), ', '.join(str(i) for i in iface), _on(root),
+        'none' if ctx is None else '(some [%s])' % ', '.join(_s(c) for c in ctx), 'none' if vn is None else '(some %s)' % _s(vn))
 
 
 def generate(src_root):
-    path = os.path.join(src_root, 'pyramid', 'router.py')
-    tree = ast.parse(open(path).read())
-    f = None
-    for node in ast.walk(tree):
-        if isinstance(node, ast.ClassDef) and node.name == 'Router':
-            for x in node.body:
-                if isinstance(x, ast.FunctionDef) and x.name == 'handle_request':
-                    f = x
-    steps = ['unknown: Router.handle_request not found']
-    if f is not None:
-        w = _Walk()
-        w.block(f.body)
-        steps = w.steps
-        # adjacent `attrs[k] = v` assignments are independent of each other: their relative order is canonicalised
-        out, run = [], []
-        for st in steps + [None]:
-            if st is not None and st.startswith('attrs['):
-                run.append(st)
-                continue
-            out += sorted(run)
-            run = []
-            if st is not None:
-                out.append(st)
-        steps = out
+    own, table, err = False, [], None
+    try:
+        own, table = _probe(src_root)
+    except Exception as e:                       # fail closed
+        err = '%s: %s' % (type(e).__name__, e)
+        own, table = False, []
+    try:
+        events = _ast_events(src_root)
+    except Exception as e:
+        events = []
     summary.clear()
-    summary.update({'steps': len(steps), 'unknown': [s for s in steps if s.startswith('unknown')]})
-    text = ('/- GENERATED by extract/x01.py from src/pyramid/router.py (`Router.handle_request`).\n'
-            '   Do not edit: rewritten on every check.  An "unknown: …" entry means the translator did not recognise a statement. -/\n'
+    summary.update({'own_tree': own, 'probe_error': err, 'scenarios': [t[0] for t in table],
+                    'events_per_scenario': [len(t[1]) for t in table], 'ast_events': events})
+    rows = []
+    for name, steps, final, caught in table:
+        rows.append('  (%s, [\n    %s],\n    (%s, %d), %s)' % (_s(name), ',\n    '.join(_lean_step(s) for s in steps), _s(final[0]), final[1], _on(caught)))
+    text = ('/- GENERATED by extract/x01.py by RUNNING the router of the tree under test (src/pyramid/router.py and everything it\n'
+            '   calls) on a scratch application; do not edit: rewritten on every check.  `ownTree = false` or an empty table mean the\n'
+            '   probe failed (fail closed). -/\n'
             'namespace Pyr.Gen.X01\n\n'
-            '/-- the steps of `handle_request`, in source order (local aliases and debug logging skipped) -/\n'
-            'def steps : List String := [\n  ' + ',\n  '.join(_lean_str(s) for s in steps) + ']\n\n'
-            'end Pyr.Gen.X01\n')
+            '/-- the probed `pyramid` package is the one of the tree under test -/\n'
+            'def ownTree : Bool := %s\n\n'
+            '/-- an observed event: (hook, matched_route, matchdict, request_iface.__sro__, root, context, view_name) as the request\n'
+            'carries them at that moment -/\n'
+            'structure Step where\n  hook : String\n  route : Option Nat\n  matchdict : List (String × String)\n  iface : List Nat\n'
+            '  root : Option Nat\n  context : Option (List String)\n  viewName : Option String\nderiving DecidableEq, Repr\n\n'
+            '/-- scenario ↦ events in the order observed, outcome (view tag / status / class id of the exception leaving the router),\n'
+            'class id of the exception the excview tween caught -/\n'
+            'def probed : List (String × List Step × (String × Nat) × Option Nat) := [\n%s]\n\n'
+            '/-- AST cross-check: order of the key calls of `handle_request` (helpers followed); `[]` = not recognised -/\n'
+            'def astEvents : List String := [%s]\n\n'
+            'end Pyr.Gen.X01\n') % ('true' if own else 'false', ',\n'.join(rows), ', '.join(_s(e) for e in events))
     return {'PyramidModel/Gen/X01.lean': text}
